@@ -24,8 +24,7 @@ LINEAR_CALLS = {"np.fft.fftn", "np.fft.ifftn", "np.fft.fftshift", "np.fft.ifftsh
 
 
 def _rename(node: ast.AST, mapping: dict[str, str]) -> ast.AST:
-    import copy
-    n = copy.deepcopy(node)
+    n = ast.parse(unparse(node)).body[0]  # fresh copy without parent links
     for x in ast.walk(n):
         if isinstance(x, ast.Name) and x.id in mapping:
             x.id = mapping[x.id]
